@@ -1112,7 +1112,7 @@ fn gen(rng: &mut Rng, depth: usize, fixvars: &Vec<String>, positive: bool) -> F 
             _ => {
                 let v = VNAMES[rng.below(VNAMES.len())].to_string();
                 if fixvars.contains(&v) && !positive {
-                    F::Var("a".into())
+                    F::Var("b".into()) // never a fixed-point name (fixed points bind X or a only)
                 } else {
                     F::Var(v)
                 }
@@ -1791,6 +1791,9 @@ fn search_lex(budget: usize, seed: u64) -> Option<Fail> {
 
 /// case: ordering names (comma separated, ids = position, "_" = gap) | formula
 fn case_index(case: &str) -> Option<Fail> {
+    if std::env::var("REPLAY_TRACE").is_ok() {
+        eprintln!("case index {case}");
+    }
     let (ord, src) = case.split_once('|').unwrap();
     let ordering: Vec<NamedSymbol> = ord
         .split(',')
